@@ -875,6 +875,7 @@ static PyObject* gemv(PyObject *self, PyObject *args, PyObject *kwrds)
     PyObject *ao=NULL, *bo=NULL;
     number a, b;
     int m=-1, n=-1, ldA=0, ix=1, iy=1, oA=0, ox=0, oy=0;
+    int abs_iy;
 #if PY_MAJOR_VERSION >= 3
     int trans_ = 'N';
 #endif
@@ -933,17 +934,20 @@ static PyObject* gemv(PyObject *self, PyObject *args, PyObject *kwrds)
     if (bo && number_from_pyobject(bo, &b, MAT_ID(x)))
         err_type("beta");
 
+    /* y := beta*y is done with xSCAL, which ignores negative increments */
+    abs_iy = abs(iy);
+
     switch (MAT_ID(x)){
         case DOUBLE:
             if (!ao) a.d=1.0;
             if (!bo) b.d=0.0;
             if (trans == 'N' && n == 0)
                 Py_BEGIN_ALLOW_THREADS
-                dscal_(&m, &b.d, MAT_BUFD(y)+oy, &iy);
+                dscal_(&m, &b.d, MAT_BUFD(y)+oy, &abs_iy);
                 Py_END_ALLOW_THREADS
             else if ((trans == 'T' || trans == 'C') && m == 0)
                 Py_BEGIN_ALLOW_THREADS
-                dscal_(&n, &b.d, MAT_BUFD(y)+oy, &iy);
+                dscal_(&n, &b.d, MAT_BUFD(y)+oy, &abs_iy);
                 Py_END_ALLOW_THREADS
             else
                 Py_BEGIN_ALLOW_THREADS
@@ -962,11 +966,11 @@ static PyObject* gemv(PyObject *self, PyObject *args, PyObject *kwrds)
 #endif
             if (trans == 'N' && n == 0)
                 Py_BEGIN_ALLOW_THREADS
-                zscal_(&m, &b.z, MAT_BUFZ(y)+oy, &iy);
+                zscal_(&m, &b.z, MAT_BUFZ(y)+oy, &abs_iy);
                 Py_END_ALLOW_THREADS
             else if ((trans == 'T' || trans == 'C') && m == 0)
                 Py_BEGIN_ALLOW_THREADS
-                zscal_(&n, &b.z, MAT_BUFZ(y)+oy, &iy);
+                zscal_(&n, &b.z, MAT_BUFZ(y)+oy, &abs_iy);
                 Py_END_ALLOW_THREADS
             else
                 Py_BEGIN_ALLOW_THREADS
@@ -1027,6 +1031,7 @@ static PyObject* gbmv(PyObject *self, PyObject *args, PyObject *kwrds)
     PyObject *ao=NULL, *bo=NULL;
     number a, b;
     int m, kl, ku=-1, n=-1, ldA=0, ix=1, iy=1, oA=0, ox=0, oy=0;
+    int abs_iy;
 #if PY_MAJOR_VERSION >= 3
     int trans_ = 'N';
 #endif
@@ -1087,17 +1092,20 @@ static PyObject* gbmv(PyObject *self, PyObject *args, PyObject *kwrds)
     if (bo && number_from_pyobject(bo, &b, MAT_ID(x)))
         err_type("beta");
 
+    /* y := beta*y is done with xSCAL, which ignores negative increments */
+    abs_iy = abs(iy);
+
     switch (MAT_ID(x)){
         case DOUBLE:
             if (!ao) a.d=1.0;
             if (!bo) b.d=0.0;
             if (trans == 'N' && n == 0)
                 Py_BEGIN_ALLOW_THREADS
-                dscal_(&m, &b.d, MAT_BUFD(y)+oy, &iy);
+                dscal_(&m, &b.d, MAT_BUFD(y)+oy, &abs_iy);
                 Py_END_ALLOW_THREADS
             else if ((trans == 'T' || trans == 'C') && m == 0)
                 Py_BEGIN_ALLOW_THREADS
-                dscal_(&n, &b.d, MAT_BUFD(y)+oy, &iy);
+                dscal_(&n, &b.d, MAT_BUFD(y)+oy, &abs_iy);
                 Py_END_ALLOW_THREADS
             else
                 Py_BEGIN_ALLOW_THREADS
@@ -1116,11 +1124,11 @@ static PyObject* gbmv(PyObject *self, PyObject *args, PyObject *kwrds)
 #endif
             if (trans == 'N' && n == 0)
                 Py_BEGIN_ALLOW_THREADS
-                zscal_(&m, &b.z, MAT_BUFZ(y)+oy, &iy);
+                zscal_(&m, &b.z, MAT_BUFZ(y)+oy, &abs_iy);
                 Py_END_ALLOW_THREADS
             else if ((trans == 'T' || trans == 'C') && m == 0)
                 Py_BEGIN_ALLOW_THREADS
-                zscal_(&n, &b.z, MAT_BUFZ(y)+oy, &iy);
+                zscal_(&n, &b.z, MAT_BUFZ(y)+oy, &abs_iy);
                 Py_END_ALLOW_THREADS
             else
                 Py_BEGIN_ALLOW_THREADS
